@@ -98,7 +98,7 @@ def b_knobs(draw, history=False):
     names = sorted(KNOB_OPTS)
     if history and EXCLUDE_LOGFILE_IN_HISTORY:
         names = [n for n in names if n != "logfile"]
-    opts = draw(st.lists(st.sampled_from(names), min_size=1, max_size=4, unique=True))
+    opts = draw(st.lists(st.sampled_from(names), min_size=1, max_size=8, unique=True))
     return ["KNOBS"] + [" -%s %s" % (o, draw(st.sampled_from(KNOB_OPTS[o]))) for o in opts]
 
 
@@ -106,7 +106,7 @@ def b_print(draw):
     L = ["PRINT"]
     if draw(st.integers(0, 4)) == 0:
         L.append(" -reset %s" % onoff(draw))
-    for f in draw(st.lists(st.sampled_from(PRINT_FLAGS), min_size=1, max_size=5, unique=True)):
+    for f in draw(st.lists(st.sampled_from(PRINT_FLAGS), min_size=1, max_size=8, unique=True)):
         L.append(" -%s %s" % (f, onoff(draw)))
     k = draw(st.integers(0, 5))
     if k == 0:
@@ -165,9 +165,11 @@ def b_title(draw):
 
 def b_transport(draw, history=False):
     cells = draw(st.integers(2, 4))
-    L = ["TRANSPORT", " -cells %d" % cells, " -shifts %d" % draw(st.integers(1, 3))]
+    # (a time step is always given: kinetic reactants of an earlier run of the history would otherwise make the block an error)
+    L = ["TRANSPORT", " -cells %d" % cells, " -shifts %d" % draw(st.integers(1, 3)),
+         " -time_step %s" % draw(st.sampled_from(["100", "20000", "3600 2"]))]
     opts = {
-        "time_step": ["100", "20000", "3600 2"], "boundary_conditions": ["flux constant", "constant closed", "closed flux", "constant constant"],
+        "boundary_conditions": ["flux constant", "constant closed", "closed flux", "constant constant"],
         "diffusion_coefficient": ["1e-9", "5e-10"], "temperature_retardation_factor": ["3.0"], "lengths": ["0.5", "0.02"],
         "dispersivities": ["0.05", "0.002"], "punch_cells": ["1-2", "2"], "print_cells": ["1", "2-%d" % cells],
         "punch_frequency": ["2"], "print_frequency": ["2"], "correct_disp": ["true"], "initial_time": ["1000", "5e5"],
@@ -182,8 +184,9 @@ def b_transport(draw, history=False):
 
 
 def b_advection(draw):
-    L = ["ADVECTION", " -cells %d" % draw(st.integers(2, 4)), " -shifts %d" % draw(st.integers(1, 3))]
-    opts = {"time_step": ["1000", "5"], "initial_time": ["500"], "print_cells": ["1"], "punch_cells": ["2"], "punch_frequency": ["2"],
+    L = ["ADVECTION", " -cells %d" % draw(st.integers(2, 4)), " -shifts %d" % draw(st.integers(1, 3)),
+         " -time_step %s" % draw(st.sampled_from(["1000", "5"]))]
+    opts = {"initial_time": ["500"], "print_cells": ["1"], "punch_cells": ["2"], "punch_frequency": ["2"],
             "print_frequency": ["3"], "warnings": ["false"]}
     for o in draw(st.lists(st.sampled_from(sorted(opts)), min_size=0, max_size=4, unique=True)):
         L.append(" -%s %s" % (o, draw(st.sampled_from(opts[o]))))
@@ -312,6 +315,7 @@ BLOCKS = {
     "dump": (b_dump, "dump"), "delete": (b_delete, "entities"), "runcells": (b_runcells, "entities"), "copy": (b_copy, "entities"),
     "spread": (b_spread, "entities"), "mixkw": (b_mixkw, "entities"),
 }
+HEAVY = ["knobs", "print", "selout", "transport", "advection", "incr", "userprint", "kinetics"]
 # blocks that do not go together in one simulation (keeps the discard rate low; found by measurement)
 EXCLUSIVE = [{"transport", "advection"}, {"transport", "gas"}, {"transport", "ss"}, {"transport", "surface"}, {"transport", "kinetics"},
              {"advection", "kinetics"}, {"transport", "incr"}, {"transport", "temp"}, {"transport", "mix"}, {"advection", "mix"},
@@ -332,7 +336,7 @@ EXCLUDE_COPY_IN_FAILING_CALL = False
 EXCLUDE_RUNCELLS_IN_FAILING_CALL = False
 # TRANSPORT -stagnant settings (stag_data) survive the load (reported): a later TRANSPORT block without -stagnant still has the
 # stagnant zone.  Not generated into histories while True.
-EXCLUDE_STAGNANT_IN_HISTORY = True
+EXCLUDE_STAGNANT_IN_HISTORY = False
 # the PITZER keyword in a run on a non-Pitzer database leaves the instance in a state where later runs of the same history can hang
 PITZER_DBS = ["pitzer.dat", "frezchem.dat", "ColdChem.dat"]
 
@@ -358,7 +362,8 @@ def gen_input(draw, db, max_sims=2, history=True, nocopy=False, noruncells=False
         avail = [a for a in avail if a != "runcells"]
     sims, tags = [], []
     for k in range(draw(st.integers(1, max_sims))):
-        names = draw(st.lists(st.sampled_from(avail), min_size=1, max_size=4, unique=True))
+        weighted = avail + [a for a in avail if a in HEAVY] * 2
+        names = draw(st.lists(st.sampled_from(weighted), min_size=1, max_size=5, unique=True))
         keep = []
         for n in names:
             if not any({n, m} in EXCLUSIVE for m in keep):
@@ -420,7 +425,7 @@ def fail_step(draw, db):
     if k == 1:
         return {"op": "load", "db": draw(st.sampled_from(["c07_no_such.dat", "gtest:missing_e.dat"])), "how": draw(st.sampled_from(["file", "string"])),
                 "fail": "bad_load"}
-    name = draw(st.sampled_from(sorted(T.FAIL_SIMS)))
+    name = draw(st.sampled_from(COMPAT.get("fails", {}).get(db) or sorted(T.FAIL_SIMS)))
     kind, sim = T.FAIL_SIMS[name]
     how = draw(st.sampled_from(["string", "string", "file", "acc"]))
     if sim is None:
@@ -929,6 +934,19 @@ def make_compat():
                 good.append(name)
         out["blocks"][db] = good
         print(db, good)
+    out["fails"] = {}
+    for db in dbs:
+        good = []
+        for name in sorted(T.FAIL_SIMS):
+            kind, sim = T.FAIL_SIMS[name]
+            txt = sim if sim is not None else T.pool_text("gtest:conv_fail.in")
+            I = lib.Inst()
+            I.load_db(T.db_path(db))
+            if I.run_string(txt) != 0:
+                good.append(name)
+            I.close()
+        out["fails"][db] = good
+        print(db, "fails", good)
     for f in os.listdir(wd):
         try:
             os.unlink(os.path.join(wd, f))
